@@ -415,7 +415,9 @@ def rule_F5(ctx):
             else:
                 want_y, want_out = f"push_double_cbuffer(y_window, _c_bound({R}))", f"y[{iv}] = _c_fix_int(_c_bound({R}))"
             texts = [t for t, i in eff]
-            ok = not sl["rest"] and len(texts) == 3 and texts[0] in xin and texts[1] == want_y and texts[2] == want_out
+            # the narrowing helper written in place: truncation towards zero, then the cast to a 16-bit integer
+            outs = (want_out,) if q == "_c_process" else (want_out, f"y[{iv}] = __cast_short__ @ trunc(_c_bound({R}))")
+            ok = not sl["rest"] and len(texts) == 3 and texts[0] in xin and texts[1] == want_y and texts[2] in outs
             det = "" if ok else f"loop body effects: {texts}"
             if ok:
                 # the filter sum is taken after the new input entered x_window and before the new output enters y_window
